@@ -28,6 +28,10 @@ def is_context_manager(fnode) -> bool:
     return False
 
 
+def is_call_of(n, q) -> bool:
+    return n.op == "Call" and bool(n.args) and n.args[0].op == "Ext" and n.args[0].attr == q
+
+
 def has_yield(fnode) -> bool:
     for n in ast.walk(fnode):
         if isinstance(n, (ast.Yield, ast.YieldFrom)):
@@ -498,6 +502,7 @@ class CallMixin:
                 if v.extra is None:
                     v.extra = {}
                 v.extra.setdefault("ext_decorators", []).append(name)
+                v.extra.setdefault("ext_decorator_nodes", []).append(dv)     # with its arguments as evaluated
                 continue
             try:
                 v = self.call(dv, [v], {}, st, fr, site)
@@ -988,6 +993,19 @@ class CallMixin:
         extra = {"dtype": self.res(dt, st)} if dt is not None else None
         # ---- builtins evaluated by the interpreter
         if q == "builtins.isinstance" and len(P) == 2:
+            def none_type(t_):
+                return (is_call_of(t_, "builtins.type") and len(t_.args) == 2 and t_.args[1].op == "Const" and
+                        t_.args[1].attr is None) or (t_.op == "Ext" and t_.attr in ("types.NoneType",))
+            if none_type(P[1]):
+                # isinstance(x, type(None)) is `x is None`
+                return self.compare("Is", P[0], self.const(None, site), site)
+            if P[1].op == "Tuple" and any(none_type(t_) for t_ in P[1].args):
+                rest = tuple(t_ for t_ in P[1].args if not none_type(t_))
+                isn = self.compare("Is", P[0], self.const(None, site), site)
+                if not rest:
+                    return isn
+                other = self.call_ext(fn, [pos[0], self.mk("Tuple", rest, None, site)], {}, st, fr, site)
+                return self.mk("BoolOp", (isn, other), "Or", site)
             r = self.fold_isinstance(P[0], P[1])
             if r is not None:
                 return self.const(r, site)
